@@ -51,6 +51,29 @@ def f19_deciders(rec):
     return out
 
 
+def f42_deciders(rec):
+    """Single-condition deciders that compare two values and copy a third, all three carried on one signal name by
+    three different producers: two wire colours cannot keep three same-named values apart, so two of them share a
+    network and are summed (finding F42)."""
+    out = set()
+    stm = rec.get("signal_type_map") or {}
+
+    def wire_name(t):
+        v = stm.get(t, t)
+        return v.get("name") if isinstance(v, dict) else v
+    for op in rec.get("ir_final", []):
+        if op.get("kind") != "IRDecider" or op.get("conditions"):
+            continue
+        by_sig = collections.defaultdict(set)
+        for k in ("left", "right", "output_value"):
+            o = op.get(k)
+            if isinstance(o, dict) and "sig" in o and (k != "output_value" or op.get("copy_count_from_input")):
+                by_sig[wire_name(o["sig"])].add(o["src"])
+        if any(len(v) >= 3 for v in by_sig.values()):
+            out.add(op["id"])
+    return out
+
+
 def nested_merges(rec):
     """wire merges one of whose sources is itself a wire merge (finding F24)"""
     merges = {op["id"]: op for op in rec.get("ir_final", []) if op.get("kind") == "IRWireMerge"}
@@ -134,6 +157,9 @@ def classify_mismatch(rec, verdict, mm):
     bad = f19_deciders(rec) & cone
     if bad:
         return ("F19", f"multi-condition decider {sorted(bad)[0]} reads one signal type from two sources without network selection")
+    bad = f42_deciders(rec) & cone
+    if bad:
+        return ("F42", f"decider {sorted(bad)[0]} compares two values and copies a third, all on one signal name from three producers: two of them share a wire colour and are summed")
     # F23: `(signal CMP c) : bundle` copies the condition signal into the result when it is not a member
     exp, got = mm.get("expected", {}), mm.get("got", {})
     extra = set(got) - set(exp)
